@@ -71,3 +71,113 @@ Definition u_defs (ptr : Det.meth -> bool) (p : Det.pkg) : list U.obj :=
    code is [sorted_methods_of]. *)
 Definition sorted_methods_of (pos : U.obj -> N) (t : U.tables) (n : U.nref) (ptr : bool) : list U.obj :=
   Det.sort_by pos N.leb (U.methods_of U.all_fixed t n ptr).
+
+(* ================================================================================================ *)
+(* B. tags: extraction (C12) -> merge -> enabled (C06)                                               *)
+
+(* C12's tag map and C06's tag map are the same type: map[string][]string as an association list *)
+Definition tags_of_c12 (m : Cm.tagmap) : D.tags := m.
+
+(* the tags Package.Doc returns at (file, line) of a layout — what Context.Doc (context.go:255-266) merges as the
+   declaration's level.  Context.Doc asks at typ.Pos(), the position of the declared NAME. *)
+Definition decl_tags (evs : list Cm.event) (file : N) (line : Z) : D.tags :=
+  tags_of_c12 (fst (Cm.doc_of true true (Cm.build true evs) file line)).
+
+(* the tags of one file's package doc (context.go:181-186):
+   ExtractCommentTags(strings.Split(f.Doc.Text(), "\n")) — the text is NOT passed through commentLinesFrom here *)
+Definition file_doc_tags (text : bytes) : D.tags :=
+  tags_of_c12 (fst (Cm.extract_tags true [] (Cm.split_nl text))).
+
+(* [docs]: Text() of the package doc of every file that has one, in p.Files() order *)
+Definition pkg_tags_from_source (docs : list bytes) : D.tags := D.pkg_tags (map file_doc_tags docs).
+
+(* IsGeneratorEnabled(g, Context.Doc(typ)) computed from the source: global tags [G] (command line, data),
+   package doc texts, and the layout of the declaration's file *)
+Definition enabled_from_source (g : bytes) (G : D.tags) (docs : list bytes) (evs : list Cm.event) (file : N) (line : Z) : bool :=
+  D.is_generator_enabled g (D.merge [G; pkg_tags_from_source docs; decl_tags evs file line]).
+
+(* the same, given the comment LINES of the declaration's doc directly (what commentLinesFrom hands to
+   ExtractCommentTags) *)
+Definition enabled_from_lines (g : bytes) (G P : D.tags) (lines : list bytes) : bool :=
+  D.is_generator_enabled g (D.merge [G; P; tags_of_c12 (fst (Cm.extract_tags true [] lines))]).
+
+(* ---- the rule, stated on comment lines with Spec/Comments.v's vocabulary (no loop, no map) ---- *)
+
+Definition ms0 : bytes := CS.markers_or_default [].      (* '+' and '@' *)
+
+(* the values of the tag lines with key k, if there is one *)
+Definition line_value (lines : list bytes) (k : bytes) : option (list bytes) :=
+  match CS.spec_values ms0 lines k with
+  | [] => None
+  | vs => Some vs
+  end.
+
+Fixpoint first_some {A} (l : list (option A)) : option A :=
+  match l with
+  | [] => None
+  | Some a :: _ => Some a
+  | None :: r => first_some r
+  end.
+
+(* declaration over package (later file over earlier file) over global *)
+Definition source_lookup (G : D.tags) (pkgdocs : list (list bytes)) (decl : list bytes) (k : bytes) : option (list bytes) :=
+  first_some (line_value decl k :: map (fun ls => line_value ls k) (rev pkgdocs) ++ [D.lookup k G]).
+
+Definition source_keys (G : D.tags) (pkgdocs : list (list bytes)) (decl : list bytes) : list bytes :=
+  CS.spec_keys ms0 decl ++ flat_map (CS.spec_keys ms0) pkgdocs ++ D.keys G.
+
+(* "+gengo:g[=v]" on the closest level that has it decides (disabled iff the values, concatenated, are "false");
+   otherwise any "+gengo:g:sub" on any level enables; otherwise not enabled *)
+Definition source_rule (g : bytes) (G : D.tags) (pkgdocs : list (list bytes)) (decl : list bytes) : bool :=
+  match source_lookup G pkgdocs decl (D.gengo_prefix g) with
+  | Some vs => negb (bytes_eqb (concat vs) D.str_false)
+  | None => existsb (D.has_prefix (D.gengo_prefix g ++ D.colon)) (source_keys G pkgdocs decl)
+  end.
+
+(* Dispatch's packages with the tags taken from the source: [ftexts p] = the package doc texts of package p,
+   [dtext d] = Text() of the stand-alone comment group that ends on the line above declaration d ("" if none) *)
+Definition tdef_from_source (dtext : N -> bytes) (d : D.tdef) : D.tdef :=
+  D.mk_tdef (D.td_id d) (D.td_name d) (D.td_kind d) (D.td_pkgscope d)
+            (tags_of_c12 (fst (Cm.extract_tags true [] (Cm.group_lines true (dtext (D.td_id d))))))
+            (D.td_action d) (D.td_defers d).
+
+Definition pkg_from_source (ftexts : list bytes) (dtext : N -> bytes) (p : D.pkg) : D.pkg :=
+  D.mk_pkg (D.pk_id p) (D.pk_direct p) (map file_doc_tags ftexts) (map (tdef_from_source dtext) (D.pk_defs p)).
+
+(* ================================================================================================ *)
+(* C. docs: Package.Doc (C12) -> Context.Doc -> runtimedoc (C16)                                     *)
+
+(* the doc lines Package.Doc returns at (file, line) *)
+Definition doc_lines_at (evs : list Cm.event) (pos : N * Z) : list bytes :=
+  snd (Cm.doc_of true true (Cm.build true evs) (fst pos) (snd pos)).
+
+(* a package description whose documentation (and enabling) is read from the layout [evs]:
+   [tpos] / [fpos] give the (file, line) of the declared NAME of a type / field — obj.Pos() *)
+Section FromSource.
+  Variable evs : list Cm.event.
+  Variable G : D.tags.                  (* global tags *)
+  Variable docs : list bytes.           (* package doc texts *)
+  Variable tpos : RD.name -> N * Z.
+  Variable fpos : RD.name -> RD.name -> N * Z.    (* type name, field name *)
+
+  Definition field_from_source (tn : RD.name) (f : RD.field) : RD.field :=
+    RD.mk_field (RD.f_name f) (RD.f_exported f) (RD.f_kind f) (doc_lines_at evs (fpos tn (RD.f_name f))).
+
+  Definition kind_from_source (tn : RD.name) (k : RD.tkind) : RD.tkind :=
+    match k with
+    | RD.TStruct fs => RD.TStruct (map (field_from_source tn) fs)
+    | other => other
+    end.
+
+  Definition ty_from_source (t : RD.tydesc) : RD.tydesc :=
+    RD.mk_ty (RD.t_name t) (RD.t_exported t)
+             (enabled_from_source (bs "runtimedoc") G docs evs (fst (tpos (RD.t_name t))) (snd (tpos (RD.t_name t))))
+             (kind_from_source (RD.t_name t) (RD.t_kind t))
+             (doc_lines_at evs (tpos (RD.t_name t))).
+
+  Definition package_from_source (p : RD.package) : RD.package := map ty_from_source p.
+End FromSource.
+
+(* the non-tag lines of the stand-alone comment group that ends on the line above (file, line) *)
+Definition source_doc (leads : list Cm.group) (file : N) (line : Z) : list bytes :=
+  CS.spec_others ms0 (CS.doc_lines_above leads file line).
